@@ -477,6 +477,7 @@ type c29ClientReq struct {
 	Presign                          bool
 	ExpiresS                         int
 	PayloadMode                      string // "hash", "unsigned", "streaming"
+	DecodedLen                       int    // streaming: x-amz-decoded-content-length (0 = len(Body))
 }
 
 type c29Signed struct {
@@ -549,7 +550,11 @@ func c29SdkSign(c c29ClientReq, keyID, secret, region string, at time.Time) (*c2
 		case "streaming":
 			ph = "STREAMING-AWS4-HMAC-SHA256-PAYLOAD"
 			req.Header.Set("Content-Encoding", "aws-chunked")
-			req.Header.Set("X-Amz-Decoded-Content-Length", strconv.Itoa(len(c.Body)))
+			dl := len(c.Body)
+			if c.DecodedLen > 0 {
+				dl = c.DecodedLen
+			}
+			req.Header.Set("X-Amz-Decoded-Content-Length", strconv.Itoa(dl))
 		}
 		req.Header.Set("X-Amz-Content-Sha256", ph)
 		if err := signer.SignHTTP(context.Background(), creds, req, ph, "s3", region, at); err != nil {
@@ -952,11 +957,64 @@ func c29ParseAuth(f []string) (c29AuthCase, string) {
 }
 
 // runs MakeSignatureMiddleware at the case's instant; returns BADURL | ANON | 401 | "200 <id>"
+// what the handler behind the middleware sees when it reads the body of a signed aws-chunked upload
+type c29StreamObs struct {
+	Read    bool
+	N       int64
+	CleanEO bool
+}
+
+func c29IsSignedStream(q c29Request) bool {
+	chunked, lit := false, false
+	for _, h := range q.Headers {
+		if len(h) < 2 {
+			continue
+		}
+		switch h[0] {
+		case "Content-Encoding":
+			first, _, _ := strings.Cut(h[1], ",")
+			chunked = strings.EqualFold(strings.TrimSpace(first), "aws-chunked")
+		case "X-Amz-Content-Sha256":
+			lit = strings.HasPrefix(h[1], "STREAMING-AWS4-HMAC-SHA256-PAYLOAD")
+		}
+	}
+	return chunked && lit
+}
+
+// walks the aws-chunked framing by the specification (hex size [;extension] CRLF data CRLF ...): does the body run out —
+// no further line feed — at a chunk boundary before any zero-length chunk was seen? (independent of the decoder under test)
+func c29StreamEndsWithoutTerminator(body string) bool {
+	pos := 0
+	for {
+		i := strings.IndexByte(body[pos:], '\n')
+		if i < 0 {
+			return true
+		}
+		line := strings.TrimRight(body[pos:pos+i+1], "\r\n")
+		sizeText, _, _ := strings.Cut(line, ";")
+		size, err := strconv.ParseUint(sizeText, 16, 32)
+		if err != nil || size == 0 {
+			return false
+		}
+		pos += i + 1 + int(size) + 2
+		if pos > len(body) {
+			return false
+		}
+	}
+}
+
 func c29RunMiddleware(c c29AuthCase) string {
+	out, _ := c29RunMiddlewareStream(c)
+	return out
+}
+
+func c29RunMiddlewareStream(c c29AuthCase) (string, c29StreamObs) {
+	var obs c29StreamObs
 	req, err := c29BuildRequest(c.Req)
 	if err != nil {
-		return "BADURL"
+		return "BADURL", obs
 	}
+	readStream := c29IsSignedStream(c.Req) && strings.HasPrefix(c.Mutation, "stream-")
 	var creds []authentication.Credentials
 	for _, cr := range c.Creds {
 		creds = append(creds, authentication.Credentials{AccessKeyId: cr[0], SecretAccessKey: cr[1]})
@@ -970,6 +1028,10 @@ func c29RunMiddleware(c c29AuthCase) string {
 		} else {
 			out = "ANON"
 		}
+		if readStream { // the storage handlers read r.Body (the chunk-verifying reader installed by the middleware) to its end
+			n, rerr := io.Copy(io.Discard, r.Body)
+			obs = c29StreamObs{Read: true, N: n, CleanEO: rerr == nil}
+		}
 	})
 	rec := httptest.NewRecorder()
 	c29AtTime(c.Now, func() {
@@ -978,7 +1040,7 @@ func c29RunMiddleware(c c29AuthCase) string {
 	if out == "" {
 		out = strconv.Itoa(rec.Code)
 	}
-	return out
+	return out, obs
 }
 
 func c29IsPresigned(q c29Request) bool {
@@ -995,7 +1057,7 @@ func c29RunAuth(f []string) Result {
 	if bad != "" {
 		return Result{Out: "BADCASE", Oracle: "FAIL:" + bad, Tags: []string{"badcase"}}
 	}
-	out := c29RunMiddleware(c)
+	out, stream := c29RunMiddlewareStream(c)
 	tags := append([]string{"auth"}, c29Tags(c.Req, c29IsPresigned(c.Req))...)
 	if c.Mutation != "" {
 		name, _, _ := strings.Cut(c.Mutation, ":")
@@ -1021,6 +1083,42 @@ func c29RunAuth(f []string) Result {
 	}
 	if out == "BADURL" {
 		tags = append(tags, "badurl")
+	}
+	if strings.HasPrefix(c.Mutation, "stream-") && c29IsSignedStream(c.Req) {
+		// signed streaming upload: the payload is authenticated by the chunk-signature chain, which is verified while the
+		// handler reads the body. "Accepted" = authenticated by the middleware AND read to a clean EOF.
+		// (The status line compared with the model stays the middleware's decision; the chunk reader is C30's model.)
+		tags = append(tags, "signed-stream")
+		if c29StreamEndsWithoutTerminator(c.Req.Body) {
+			// region of finding C28-truncated-signed-stream-accepted (= C30-truncated-body-accepted): computed from the body alone
+			tags = append(tags, "kf:C28-truncated-signed-stream-accepted")
+		}
+		accepted := strings.HasPrefix(out, "200") && stream.Read && stream.CleanEO
+		if stream.Read && stream.CleanEO {
+			tags = append(tags, "stream-read-eof")
+		} else if stream.Read {
+			tags = append(tags, "stream-read-error")
+		}
+		switch {
+		case strings.HasPrefix(c.Expect, "Y"):
+			want := int64(-1)
+			for _, h := range c.Req.Headers {
+				if h[0] == "X-Amz-Decoded-Content-Length" && len(h) > 1 {
+					want, _ = strconv.ParseInt(h[1], 10, 64)
+				}
+			}
+			if out != "200 "+c.Expect[1:] || !accepted || stream.N != want {
+				oracle = fmt.Sprintf("FAIL:genuine signed stream not delivered (status %s, read %d bytes, clean EOF %v, signed decoded length %d)", out, stream.N, stream.CleanEO, want)
+			} else {
+				oracle = "OK"
+			}
+		case c.Expect == "N":
+			if accepted {
+				oracle = fmt.Sprintf("FAIL:altered signed stream authenticated and read to a clean EOF (%d bytes)", stream.N)
+			} else {
+				oracle = "OK"
+			}
+		}
 	}
 	return Result{Out: out, Oracle: oracle, Tags: tags}
 }
